@@ -66,7 +66,7 @@ class HashTable:
             self.dtype = keys.dtype.type
             if mod is None:
                 mod = self._get_mod(keys)
-            self._mod = mod
+            self._mod = int(mod)  # (a numpy integer modulus of another signedness than the keys hashes to floats)
             hashes = self._get_hash(keys)
             args = np.argsort(hashes)
             hashes = hashes[args]
